@@ -155,7 +155,7 @@ class State(object):
 class Path(object):
     __slots__ = ("conds", "effects", "ret", "notes", "entry")
 
-    def __init__(self, st, ret, entry):
+    def __init__(self, st, ret, entry=None):
         self.conds = st.conds
         self.effects = st.effects
         self.ret = ret
@@ -266,11 +266,84 @@ class Engine(object):
             self._paths = 0
             self._steps = 0
             res = self.run_body(st, body, list(args), 0, ("entry", 0))
-            out = [Path(s, r, body.path) for (s, r) in res]
+            out = [Path(*self.settle(s, r), entry=body.path) for (s, r) in res]
             self.stat_paths += len(out)
             return out
         finally:
             self.opaque = old_opaque
+
+    # ------------------------------------------------------------------ late refinement
+    def settle(self, st, ret):
+        """rewrite the terms of a finished path with what the path decided later: `x.unwrap_or(d)` taken before a branch on
+        `x` is `x`'s payload (or `d`) on the paths that went on to decide `x` - the same value `match x {..}` would have
+        produced there.  Terms are pure values, so a decision made anywhere on the path holds for the whole path."""
+        opts = {t: v for t, v in st.refine.items() if v in ("Some", "None") and isinstance(t, tuple)}
+        # a struct local handed to a loop body by `&mut` is split into one loop variable per field; the fields the loop did
+        # not change on this path (zero iterations, or stepped to themselves) are loop-invariant: their entry value
+        inv = {}
+        steps = {e.name: e for e in st.effects if e.kind == "loop_step"}
+        for e in st.effects:
+            if e.kind != "loop_enter":
+                continue
+            stp = steps.get(e.name)
+            for nm, v0 in e.value.items():
+                if "." not in nm:
+                    continue
+                lv0 = ("loopvar", e.name, nm, 0)
+                if stp is None:
+                    inv[lv0] = v0
+                elif stp.value.get(nm) == lv0:
+                    inv[lv0] = v0
+                    inv[("loopvar", e.name, nm, 1)] = v0
+        if not opts and not inv:
+            return st, ret
+        memo = {}
+
+        def rw(t):
+            if not isinstance(t, tuple) or not t:
+                return t
+            k = memo.get(t)
+            if k is not None:
+                return k
+            if t[0] == "unwrap_or" and len(t) == 3 and t[1] in opts:
+                r = ("vfield", rw(t[1]), "Some", "0") if opts[t[1]] == "Some" else rw(t[2])
+            elif t[0] == "loopvar" and t in inv:
+                r = rw(inv[t])
+            else:
+                r = tuple(rw(x) if isinstance(x, tuple) else x for x in t)
+                if r == t:
+                    r = t
+            memo[t] = r
+            return r
+        probe = False
+        for t in opts:
+            probe = True
+            break
+        st.conds = [(rw(c[0]), c[1], c[2], c[3]) for c in st.conds]
+        import copy as _copy
+        neweff = []
+        for e in st.effects:       # Effect objects are shared with sibling paths: never mutate, copy on change
+            if e.kind in ("read", "write"):
+                e2k = rw(e.key)
+                e2v = rw(e.value) if e.value is not None else None
+                e2o = rw(e.old) if e.old is not None else None
+                e2x = rw(e.extra) if isinstance(e.extra, tuple) else e.extra
+                if (e2k, e2v, e2o, e2x) != (e.key, e.value, e.old, e.extra):
+                    e = _copy.copy(e)
+                    e.key, e.value, e.old, e.extra = e2k, e2v, e2o, e2x
+            elif e.kind == "prim":
+                a2 = rw(e.args) if isinstance(e.args, tuple) else e.args
+                if a2 != e.args:
+                    e = _copy.copy(e)
+                    e.args = a2
+            elif e.kind in ("loop_enter", "loop_step"):
+                v2 = {k: rw(v) for k, v in e.value.items()}
+                if v2 != e.value:
+                    e = _copy.copy(e)
+                    e.value = v2
+            neweff.append(e)
+        st.effects = neweff
+        return st, rw(ret)
 
     # ------------------------------------------------------------------ effect scan (blind-spot detection)
     _FX = ("::save", "::update", "::remove", "Admin::set", "execute_update_admin", "execute_add_hook", "execute_remove_hook",
@@ -676,7 +749,8 @@ class Engine(object):
                 b = v[1]
                 if b[0] == "update":
                     b = b[1]
-                if base is None and self.term_adt(b) == adt:
+                if base is None and (self.term_adt(b) == adt or b[0] == "call"):
+                    # a stored value of this very type, or `S { f: new, ..make_s() }` over a function result
                     base = v[1]
                 if base is not None and v[1] == base:
                     copied += 1
